@@ -658,6 +658,17 @@ func replay(beh []mbt.Step, seed int64, modPos int) (ok bool, frameSize int) {
 				key += ":" + s.Str("c")
 			}
 			errs := fmt.Sprintf("a=%v b=%v", r.a.hsErr, r.b.hsErr)
+			if s.Act() == "AdvAuth" {
+				d := s.Str("dst")
+				eph, _ := exp["ph"].(map[string]any)
+				oph, _ := obsSt["ph"].(map[string]string)
+				if eph[d] == "open" && oph[d] == "failed" {
+					// the model's adversary authenticates with its own key, the driver's could not: the real
+					// endpoint was stricter than the model, which is no violation of the property
+					mbt.Emit(map[string]any{"kind": "advfail", "what": fmt.Sprintf("step %d %s: the driver's adversary was rejected (%s)", k, mbt.JS(s), errs)})
+					return true, r.frameSize
+				}
+			}
 			mbt.Mismatch(key, fmt.Sprintf("step %d %s: handshake state %s, spec %s (%s)", k, mbt.JS(s), mbt.JS(obsSt), mbt.JS(exp), errs), kase(k))
 			return false, r.frameSize
 		}
